@@ -2,17 +2,24 @@ package c08
 
 // C08 correspondence + monitors on the REAL app: erc20 message handlers through the real message router
 // (MsgConvertCoin / MsgConvertERC20 / MsgConvertDenom, MsgRegisterCoin / MsgRegisterERC20 / MsgToggleTokenConversion /
-// MsgUpdateDenomAlias with the gov authority), real bank, real EVM (FIP20 / WFX contracts).
-//   * after every ledger op: balances of every user, the erc20 module account and the WFX contract in every
-//     representation + supplies, compared with the Lean model;
-//   * after every index op: raw dump of the erc20 store prefixes 0x01/0x02/0x03/0x05 + bank metadata aliases, compared
-//     with the Lean index model;
-//   * monitors on real state: I_sum, I_module, I_external, I_index;
-//   * mixed-transaction experiment on the real EVM: a contract transfers the token (dirtying its storage in the
-//     running StateDB) and then calls the crosschain precompile `bridgeCall` converting the same token.
+// MsgUpdateDenomAlias / MsgUpdateParams with the gov authority), real bank, real EVM (FIP20 / WFX contracts).
+//
+// Everything is addressed the way the messages address it: coin DENOMINATIONS (base denominations 0..7, bridge / alias
+// denominations 100+10g+c, any of which may be made an alias of any registered denomination) and ERC-20 CONTRACTS
+// (numbered in order of appearance).  After EVERY op the observation is
+//     <ok | err:kind> | balances of 3 users + erc20 module + WFX contract in every denomination and every contract,
+//                       supplies | raw erc20 store prefixes 0x01/0x02/0x03/0x05 + bank metadata aliases [+ off]
+// and is compared with the Lean model (Model/C08U.lean) line by line.
+//   * monitors on real state after every op: convert_exact (user-level balance deltas of a conversion), I_sum, I_module,
+//     I_external (per-op deltas of the book equations), I_index (three indexes + alias index + metadata, disjointness),
+//     frame (index ops leave every balance alone, conversions leave the indexes alone);
+//   * mixed transactions on the real EVM (mixed.go): a contract mixes direct token calls with the crosschain
+//     precompiles bridgeCall (keeper-level nested conversion) / crossChain (conversion through the running EVM) on the
+//     same token; the post-state is compared with the StateDB cache model (Model/C08Cache.lean).
 
 import (
 	"bytes"
+	"errors"
 	"fmt"
 	"math/big"
 	"math/rand"
@@ -22,22 +29,27 @@ import (
 
 	sdkmath "cosmossdk.io/math"
 	sdk "github.com/cosmos/cosmos-sdk/types"
+	sdkerrors "github.com/cosmos/cosmos-sdk/types/errors"
 	authtypes "github.com/cosmos/cosmos-sdk/x/auth/types"
 	banktypes "github.com/cosmos/cosmos-sdk/x/bank/types"
 	govtypes "github.com/cosmos/cosmos-sdk/x/gov/types"
 	"github.com/ethereum/go-ethereum/common"
+	evmtypes "github.com/evmos/ethermint/x/evm/types"
 
 	"github.com/functionx/fx-core/v8/contract"
 	"github.com/functionx/fx-core/v8/testutil/helpers"
 	fxtypes "github.com/functionx/fx-core/v8/types"
-	crosschaintypes "github.com/functionx/fx-core/v8/x/crosschain/types"
 	erc20types "github.com/functionx/fx-core/v8/x/erc20/types"
 
 	bx "fxverif/harness/bridgex"
 	"fxverif/harness/hx"
 )
 
-const nG = 8
+const (
+	nG      = 8  // base denominations 0..7 (0 = FX)
+	nCt     = 48 // contract ids printed by the model
+	unknown = 47 // contract id of an address that was never deployed
+)
 
 type run struct {
 	last     map[string]string // last reported book differences (a break is reported once, when it appears)
@@ -50,6 +62,10 @@ type run struct {
 	contract map[int]common.Address // contract id -> address
 	ctOf     map[string]int         // address -> contract id
 	nextCt   int
+	extOf    map[int]int    // denom -> id of the external contract deployed for it (symbol = the denom's symbol)
+	mdKind   map[int]string // denom -> who wrote its bank metadata ("coin" / "erc")
+	dead     map[int]bool
+	seenIdx  map[string]bool
 }
 
 func si(n int) sdkmath.Int { return sdkmath.NewInt(int64(n)) }
@@ -63,7 +79,8 @@ func baseName(d int) string {
 
 func symbol(d int) string { return strings.ToUpper(baseName(d)) }
 
-func aliasName(a int) string {
+// denomName: ids below 100 are base denominations, 100+10g+c is a bridge denomination on chain c
+func denomName(a int) string {
 	if a < 100 {
 		return baseName(a)
 	}
@@ -71,110 +88,171 @@ func aliasName(a int) string {
 	return bx.Chains[c%3] + common.BigToAddress(big.NewInt(int64(a))).Hex()
 }
 
-func aliasID(s string) int {
+var denomIDs = func() map[string]int {
+	m := map[string]int{}
 	for a := 0; a < 100+10*nG+10; a++ {
-		if aliasName(a) == s {
-			return a
+		if a >= nG && a < 100 {
+			continue
 		}
+		m[denomName(a)] = a
+	}
+	return m
+}()
+
+func denomID(s string) int {
+	if id, ok := denomIDs[s]; ok {
+		return id
 	}
 	return -1
 }
 
-func denomID(s string) int {
-	for d := 0; d < 100; d++ {
-		if baseName(d) == s {
-			return d
+// coin denominations the observation tracks (same list as the model driver)
+var coinIDs = func() []int {
+	var l []int
+	for d := 0; d < nG; d++ {
+		l = append(l, d)
+	}
+	for g := 0; g < nG; g++ {
+		for c := 0; c < 3; c++ {
+			l = append(l, 100+10*g+c)
 		}
 	}
-	return -1
-}
+	return l
+}()
 
 func (r *run) ctx() sdk.Context { return r.w.S.Ctx }
 
+// ---- running messages ------------------------------------------------------------------------------------
+
+func (r *run) atomic(f func(ctx sdk.Context) error) (err error) {
+	r.w.Height++
+	r.w.S.Ctx = r.w.S.Ctx.WithBlockHeight(r.w.Height)
+	cctx, write := r.w.S.Ctx.CacheContext()
+	defer func() {
+		if rec := recover(); rec != nil {
+			err = fmt.Errorf("panic:%v", rec)
+		}
+	}()
+	if err = f(cctx); err == nil {
+		write()
+	}
+	return err
+}
+
+func (r *run) msg(m sdk.Msg) error {
+	return r.atomic(func(ctx sdk.Context) error {
+		h := r.w.S.App.MsgServiceRouter().Handler(m)
+		if h == nil {
+			return fmt.Errorf("no handler")
+		}
+		_, err := h(ctx, m)
+		return err
+	})
+}
+
+// errKind canonicalises an error to the model's error kinds
+func errKind(err error) string {
+	switch {
+	case err == nil:
+		return "ok"
+	case strings.HasPrefix(err.Error(), "panic:"):
+		return "err:panic"
+	case errors.Is(err, erc20types.ErrTokenPairNotFound):
+		return "err:notfound"
+	case errors.Is(err, erc20types.ErrERC20Disabled), errors.Is(err, erc20types.ErrERC20TokenPairDisabled):
+		return "err:disabled"
+	case errors.Is(err, sdkerrors.ErrInsufficientFunds), errors.Is(err, evmtypes.ErrVMExecution):
+		return "err:funds"
+	}
+	return "err:invalid"
+}
+
 // ---- observation ---------------------------------------------------------------------------------------
 
-func (r *run) erc20Of(g int) (common.Address, bool) {
-	p, ok := r.w.S.App.Erc20Keeper.GetTokenPair(r.ctx(), baseName(g))
-	if !ok {
-		return common.Address{}, false
+func (r *run) balOf(t common.Address, a common.Address) *big.Int {
+	v, err := r.w.S.App.EvmKeeper.ERC20BalanceOf(r.ctx(), t, a)
+	if err != nil {
+		return big.NewInt(0) // no code at the address any more
 	}
-	return p.GetERC20Contract(), true
+	return v
 }
 
-func (r *run) assetBal(g, k int, acc sdk.AccAddress) *big.Int {
-	switch {
-	case k == 0:
-		return r.w.S.App.BankKeeper.GetBalance(r.ctx(), acc, baseName(g)).Amount.BigInt()
-	case k <= 3:
-		return r.w.S.App.BankKeeper.GetBalance(r.ctx(), acc, aliasName(100+10*g+k-1)).Amount.BigInt()
-	default:
-		t, ok := r.erc20Of(g)
-		if !ok {
-			if a, ok2 := r.contract[g+1000]; ok2 { // external token deployed but not yet registered
-				t = a
-			} else {
-				return big.NewInt(0)
-			}
+func (r *run) totalSupply(t common.Address) *big.Int {
+	var res struct{ Value *big.Int }
+	if err := r.w.S.App.EvmKeeper.QueryContract(r.ctx(), r.owner.Address(), t, contract.GetFIP20().ABI, "totalSupply", &res); err != nil {
+		return big.NewInt(0)
+	}
+	return res.Value
+}
+
+func (r *run) coinBal(acc sdk.AccAddress, d int) *big.Int {
+	return r.w.S.App.BankKeeper.GetBalance(r.ctx(), acc, denomName(d)).Amount.BigInt()
+}
+
+func (r *run) coinSupply(d int) *big.Int {
+	return r.w.S.App.BankKeeper.GetSupply(r.ctx(), denomName(d)).Amount.BigInt()
+}
+
+func (r *run) wfx() common.Address { return r.contract[0] }
+
+func (r *run) ctIDs() []int {
+	var l []int
+	for id := range r.contract {
+		if id < nCt && id != unknown {
+			l = append(l, id)
 		}
-		return r.w.BalanceOf(t, common.BytesToAddress(acc.Bytes()))
 	}
+	sort.Ints(l)
+	return l
 }
 
-func (r *run) assetSupply(g, k int) *big.Int {
-	switch {
-	case k == 0:
-		return r.w.S.App.BankKeeper.GetSupply(r.ctx(), baseName(g)).Amount.BigInt()
-	case k <= 3:
-		return r.w.S.App.BankKeeper.GetSupply(r.ctx(), aliasName(100+10*g+k-1)).Amount.BigInt()
-	default:
-		t, ok := r.erc20Of(g)
-		if !ok {
-			if a, ok2 := r.contract[g+1000]; ok2 {
-				t = a
-			} else {
-				return big.NewInt(0)
-			}
-		}
-		return r.w.TotalSupply(t)
-	}
+type acct struct {
+	n string
+	a sdk.AccAddress
 }
 
-var assetNames = []string{"B", "b0", "b1", "b2", "T"}
-
-func (r *run) wfx() common.Address {
-	t, _ := r.erc20Of(0)
-	return t
-}
-
-func (r *run) dumpLedger() string {
-	type ac struct {
-		n string
-		a sdk.AccAddress
-	}
-	var accts []ac
+func (r *run) accts() []acct {
+	var l []acct
 	for i, u := range r.users {
-		accts = append(accts, ac{fmt.Sprintf("u%d", i), u.AccAddress()})
+		l = append(l, acct{fmt.Sprintf("u%d", i), u.AccAddress()})
 	}
-	accts = append(accts, ac{"e", bx.ModuleAddr(erc20types.ModuleName)}, ac{"w", sdk.AccAddress(r.wfx().Bytes())})
+	return append(l, acct{"e", bx.ModuleAddr(erc20types.ModuleName)}, acct{"w", sdk.AccAddress(r.wfx().Bytes())})
+}
+
+// snapshot: every tracked (account, asset) balance and every supply, keyed as the observation prints them
+func (r *run) snapshot() (map[string]*big.Int, []string) {
+	m := map[string]*big.Int{}
+	var order []string
+	put := func(k string, v *big.Int) {
+		if v.Sign() != 0 {
+			m[k] = v
+			order = append(order, k)
+		}
+	}
+	cts := r.ctIDs()
+	for _, a := range r.accts() {
+		for _, d := range coinIDs {
+			put(fmt.Sprintf("%s.d%d", a.n, d), r.coinBal(a.a, d))
+		}
+		for _, ct := range cts {
+			put(fmt.Sprintf("%s.c%d", a.n, ct), r.balOf(r.contract[ct], common.BytesToAddress(a.a.Bytes())))
+		}
+	}
+	for _, d := range coinIDs {
+		if d != 0 {
+			put(fmt.Sprintf("s.d%d", d), r.coinSupply(d))
+		}
+	}
+	for _, ct := range cts {
+		put(fmt.Sprintf("s.c%d", ct), r.totalSupply(r.contract[ct]))
+	}
+	return m, order
+}
+
+func showSnap(m map[string]*big.Int, order []string) string {
 	var out []string
-	for _, a := range accts {
-		for g := 0; g < nG; g++ {
-			for k := 0; k < 5; k++ {
-				if v := r.assetBal(g, k, a.a); v.Sign() != 0 {
-					out = append(out, fmt.Sprintf("%s.g%d%s=%s", a.n, g, assetNames[k], v))
-				}
-			}
-		}
-	}
-	for g := 0; g < nG; g++ {
-		for k := 0; k < 5; k++ {
-			if g == 0 && k == 0 {
-				continue
-			}
-			if v := r.assetSupply(g, k); v.Sign() != 0 {
-				out = append(out, fmt.Sprintf("s.g%d%s=%s", g, assetNames[k], v))
-			}
-		}
+	for _, k := range order {
+		out = append(out, k+"="+m[k].String())
 	}
 	return strings.Join(out, " ")
 }
@@ -195,8 +273,19 @@ func (r *run) ctID(a common.Address) int {
 }
 
 // dumpIdx reads the raw erc20 store and the bank metadata; also evaluates I_index on the real state.
-func (r *run) dumpIdx(op string) string {
+func (r *run) dumpIdx(op string) string { return r.dumpIdxM(op, true) }
+
+// dumpIdxM: `monitor` = evaluate I_index (off for the snapshot taken before an op: same state as after the previous op)
+func (r *run) dumpIdxM(op string, monitor bool) string {
 	ctx := r.ctx()
+	violate := func(d string) {
+		// a broken index stays broken: report each kind of break once per sequence, at the op that caused it
+		cls := strings.SplitN(d, " after ", 2)[0]
+		if monitor && !r.seenIdx[cls] {
+			r.seenIdx[cls] = true
+			r.out.Violate(d)
+		}
+	}
 	key := r.w.S.App.GetKey(erc20types.StoreKey)
 	pairs := map[string]pairRec{}
 	var ps, ds, es, as, ms []string
@@ -213,7 +302,7 @@ func (r *run) dumpIdx(op string) string {
 		}
 		pairs[id] = rec
 		if !bytes.Equal(p.GetID(), []byte(id)) {
-			r.out.Violate("index: pair stored under a key that is not its id after " + op)
+			violate("index: pair stored under a key that is not its id after " + op)
 		}
 	}
 	var recs []pairRec
@@ -241,7 +330,7 @@ func (r *run) dumpIdx(op string) string {
 		byDenom[d] = string(kv[1])
 		dl = append(dl, kv2{denomID(d), fmt.Sprintf("D%d>%s", denomID(d), idStr(kv[1]))})
 		if p, ok := pairs[string(kv[1])]; !ok || p.denom != d {
-			r.out.Violate("index: denom index entry without a matching pair after " + op)
+			violate("index: denom index entry without a matching pair after " + op)
 		}
 	}
 	byErc := map[string]string{}
@@ -250,19 +339,22 @@ func (r *run) dumpIdx(op string) string {
 		byErc[a.Hex()] = string(kv[1])
 		el = append(el, kv2{r.ctID(a), fmt.Sprintf("E%d>%s", r.ctID(a), idStr(kv[1]))})
 		if p, ok := pairs[string(kv[1])]; !ok || p.contract != a {
-			r.out.Violate("index: contract index entry without a matching pair after " + op)
+			violate("index: contract index entry without a matching pair after " + op)
 		}
 	}
 	for _, p := range pairs {
 		if byDenom[p.denom] != p.id || byErc[p.contract.Hex()] != p.id {
-			r.out.Violate("index: pair not reachable through both the denom and the contract index after " + op)
+			violate("index: pair not reachable through both the denom and the contract index after " + op)
 		}
 	}
 	aliasIdx := map[string]string{}
 	for _, kv := range hx.RawPrefix(ctx, key, erc20types.KeyPrefixAliasDenom) {
 		a := string(kv[0][len(erc20types.KeyPrefixAliasDenom):])
 		aliasIdx[a] = string(kv[1])
-		al = append(al, kv2{aliasID(a), fmt.Sprintf("A%d>%d", aliasID(a), denomID(string(kv[1])))})
+		al = append(al, kv2{denomID(a), fmt.Sprintf("A%d>%d", denomID(a), denomID(string(kv[1])))})
+		if _, reg := byDenom[a]; reg {
+			violate("index: a denomination is both a registered base denomination and an alias after " + op)
+		}
 	}
 	// bank metadata of every denom the model tracks
 	mdAliases := map[string][]string{}
@@ -285,7 +377,7 @@ func (r *run) dumpIdx(op string) string {
 	for _, k := range mdKeys {
 		var ids []string
 		for _, a := range mdAliases[k] {
-			ids = append(ids, fmt.Sprint(aliasID(a)))
+			ids = append(ids, fmt.Sprint(denomID(a)))
 		}
 		ms = append(ms, fmt.Sprintf("M%d=%s", denomID(k), strings.Join(ids, ",")))
 	}
@@ -298,13 +390,13 @@ func (r *run) dumpIdx(op string) string {
 			}
 		}
 		if _, reg := byDenom[d]; !reg || !found {
-			r.out.Violate("index: alias index entry that the bank metadata of a registered denom does not list (stale alias) after " + op)
+			violate("index: alias index entry that the bank metadata of a registered denom does not list (stale alias) after " + op)
 		}
 	}
 	for d := range byDenom {
 		for _, a := range mdAliases[d] {
 			if aliasIdx[a] != d {
-				r.out.Violate("index: metadata alias of a registered denom missing from the alias index after " + op)
+				violate("index: metadata alias of a registered denom missing from the alias index (or indexed under another denom) after " + op)
 			}
 		}
 	}
@@ -318,28 +410,38 @@ func (r *run) dumpIdx(op string) string {
 	}
 	ds, es, as = srt(dl), srt(el), srt(al)
 	all := append(append(append(append(ps, ds...), es...), as...), ms...)
-	return strings.Join(all, " ")
+	s := strings.Join(all, " ")
+	if !r.w.S.App.Erc20Keeper.GetEnableErc20(ctx) {
+		s += " off"
+	}
+	return s
 }
 
-// monitors on the ledger: I_sum, I_module, I_external
-func (r *run) books(op string) {
+// books evaluates I_sum, I_module, I_external on the real state.  `report` = the op is a message of the module (a
+// change of a book difference is a violation); otherwise (environment ops) the new differences are only recorded.
+// `aliasShift` (for MsgUpdateDenomAlias on an externally-owned denomination) is the change the alias set itself makes
+// to the right-hand side of I_external: ± the current supply of the alias.
+func (r *run) books(op string, report bool, aliasShift map[string]*big.Int) {
 	ctx := r.ctx()
 	for _, p := range r.w.S.App.Erc20Keeper.GetAllTokenPairs(ctx) {
 		t := p.GetERC20Contract()
-		ts := r.w.TotalSupply(t)
+		if r.dead[r.ctID(t)] {
+			continue
+		}
+		ts := r.totalSupply(t)
 		sum := new(big.Int)
 		holders := []common.Address{bx.Erc20ModuleAddr(), r.owner.Address(), mixerAddr, sinkAddr}
 		for _, u := range r.users {
 			holders = append(holders, u.Address())
 		}
 		for _, h := range holders {
-			sum.Add(sum, r.w.BalanceOf(t, h))
+			sum.Add(sum, r.balOf(t, h))
 		}
 		kind := "module-owned"
 		if p.IsNativeERC20() {
 			kind = "externally-owned"
 		}
-		if d := new(big.Int).Sub(sum, ts).String(); r.changed("sum:"+p.Denom, d) && d != "0" {
+		if d := new(big.Int).Sub(sum, ts).String(); r.changed("sum:"+p.Denom+t.Hex(), d) && report {
 			r.out.Violate(fmt.Sprintf("I_sum: ERC-20 balances of %s token sum to %s but totalSupply=%s after %s", kind, sum, ts, op))
 		}
 		escrow := r.w.S.App.BankKeeper.GetBalance(ctx, bx.ModuleAddr(erc20types.ModuleName), p.Denom).Amount.BigInt()
@@ -347,8 +449,26 @@ func (r *run) books(op string) {
 			if p.Denom == fxtypes.DefaultDenom {
 				escrow = r.w.S.App.BankKeeper.GetBalance(ctx, sdk.AccAddress(t.Bytes()), p.Denom).Amount.BigInt()
 			}
-			if d := new(big.Int).Sub(escrow, ts).String(); r.changed("mod:"+p.Denom, d) && d != "0" {
+			if d := new(big.Int).Sub(escrow, ts).String(); r.changed("mod:"+p.Denom+t.Hex(), d) && report {
 				r.out.Violate(fmt.Sprintf("I_module: escrowed coins %s != ERC-20 totalSupply %s after %s", escrow, ts, op))
+			}
+			// the denominations of a module-owned coin: every alias coin the module escrows is matched by minted base
+			// coins, i.e. (supply of the base coin − Σ alias coins held by the module) is moved by no message
+			fam := r.w.S.App.BankKeeper.GetSupply(ctx, p.Denom).Amount.BigInt()
+			if md, ok := r.w.S.App.BankKeeper.GetDenomMetaData(ctx, p.Denom); ok && len(md.DenomUnits) > 0 {
+				for _, a := range md.DenomUnits[0].Aliases {
+					fam.Sub(fam, r.w.S.App.BankKeeper.GetBalance(ctx, bx.ModuleAddr(erc20types.ModuleName), a).Amount.BigInt())
+				}
+			}
+			if sh, ok := aliasShift["fam:"+p.Denom]; ok {
+				old, _ := new(big.Int).SetString(r.lastOf("fam:"+p.Denom+t.Hex()), 10)
+				if new(big.Int).Add(old, sh).Cmp(fam) == 0 {
+					r.last["fam:"+p.Denom+t.Hex()] = fam.String()
+					continue
+				}
+			}
+			if d := fam.String(); r.changed("fam:"+p.Denom+t.Hex(), d) && report {
+				r.out.Violate(fmt.Sprintf("I_family: (supply of the base coin − alias coins escrowed by the module) of a module-owned token changed to %s after %s", d, strings.SplitN(op, " ", 2)[0]))
 			}
 		} else {
 			coinSupply := r.w.S.App.BankKeeper.GetSupply(ctx, p.Denom).Amount.BigInt()
@@ -357,8 +477,17 @@ func (r *run) books(op string) {
 					coinSupply.Add(coinSupply, r.w.S.App.BankKeeper.GetSupply(ctx, a).Amount.BigInt())
 				}
 			}
-			esc := r.w.BalanceOf(t, bx.Erc20ModuleAddr())
-			if d := new(big.Int).Sub(esc, coinSupply).String(); r.changed("ext:"+p.Denom, d) && d != "0" {
+			esc := r.balOf(t, bx.Erc20ModuleAddr())
+			diff := new(big.Int).Sub(esc, coinSupply)
+			if sh, ok := aliasShift[p.Denom]; ok {
+				// expected: old difference shifted by exactly the alias's supply
+				old, _ := new(big.Int).SetString(r.lastOf("ext:"+p.Denom+t.Hex()), 10)
+				if new(big.Int).Add(old, sh).Cmp(diff) == 0 {
+					r.last["ext:"+p.Denom+t.Hex()] = diff.String()
+					continue
+				}
+			}
+			if d := diff.String(); r.changed("ext:"+p.Denom+t.Hex(), d) && report {
 				cls := "conversion"
 				if strings.HasPrefix(op, "cden") {
 					cls = "MsgConvertDenom"
@@ -369,58 +498,153 @@ func (r *run) books(op string) {
 	}
 }
 
-// changed records the current difference and tells whether it differs from the last one seen (initially "0")
-func (r *run) changed(key, d string) bool {
-	old, ok := r.last[key]
-	if !ok {
-		old = "0"
+func (r *run) lastOf(key string) string {
+	if v, ok := r.last[key]; ok {
+		return v
 	}
+	return "0"
+}
+
+// changed records the current difference and tells whether it differs from the last one seen.  The first observation
+// of a pair is its baseline (coins of a denomination may exist before the pair is registered: environment).
+func (r *run) changed(key, d string) bool {
+	old, seen := r.last[key]
 	r.last[key] = d
+	if !seen {
+		if d != "0" {
+			r.out.Count("books:nonzero-baseline-at-registration")
+		}
+		return false
+	}
 	return old != d
 }
 
-func (r *run) ledgerOp(line string, f func() string) {
-	res := f()
-	k := "ok"
-	if res != "ok" {
-		k = "err"
-	}
-	r.out.Emit(line, k+" "+r.dumpLedger())
-	op := strings.SplitN(line, " ", 2)[0]
-	r.out.Count("op:" + op + ":" + k)
-	r.out.Nontrivial(op + "|" + k)
-	if k == "err" {
-		if _, ok := r.out.Stats.Extra["err:"+op]; !ok {
-			e := res
-			if len(e) > 150 {
-				e = e[:150]
-			}
-			r.out.Stats.Extra["err:"+op] = line + " => " + e
-		}
-	}
-	r.books(line)
+// op runs one operation and emits `<res> | ledger | indexes`; `check` (optional) is a monitor evaluated on the
+// snapshots before and after.
+type opts struct {
+	env        bool // an environment operation (funding, deployment, self-destruct): books are only re-based
+	aliasShift map[string]*big.Int
+	check      func(res string, pre, post map[string]*big.Int, preIdx, postIdx string)
 }
 
-func (r *run) idxOp(line string, f func() string) string {
-	res := f()
-	k := "ok"
-	if res != "ok" {
-		k = "err"
+func (r *run) op(line string, f func() error, o opts) string {
+	var pre map[string]*big.Int
+	var preIdx string
+	if o.check != nil {
+		pre, _ = r.snapshot()
+		preIdx = r.dumpIdxM(line, false)
 	}
-	op := strings.SplitN(line, " ", 2)[0]
-	r.out.Emit(line, k+" "+r.dumpIdx(op))
-	r.out.Count("op:" + op + ":" + k)
-	r.out.Nontrivial(op + "|" + k)
-	if k == "err" {
-		if _, ok := r.out.Stats.Extra["err:"+op]; !ok {
-			e := res
-			if len(e) > 150 {
-				e = e[:150]
+	err := f()
+	res := errKind(err)
+	kind := strings.SplitN(line, " ", 2)[0]
+	if err != nil {
+		if _, seen := r.out.Stats.Extra["first "+kind+" "+res]; !seen {
+			e := err.Error()
+			if len(e) > 160 {
+				e = e[:160]
 			}
-			r.out.Stats.Extra["err:"+op] = line + " => " + e
+			r.out.Stats.Extra["first "+kind+" "+res] = line + " => " + e
 		}
 	}
+	post, order := r.snapshot()
+	idx := r.dumpIdx(kind)
+	r.out.Emit(line, res+" | "+showSnap(post, order)+" | "+idx)
+	r.out.Count("op:" + kind + ":" + res)
+	r.out.Nontrivial(kind + "|" + res)
+	if res == "err:panic" {
+		r.out.Violate("panic in the message handler of " + kind)
+	}
+	if o.check != nil {
+		o.check(res, pre, post, preIdx, idx)
+	}
+	r.books(line, !o.env, o.aliasShift)
 	return res
+}
+
+// deltas of the user accounts between two snapshots (module account, WFX contract and supplies excluded)
+func userDeltas(pre, post map[string]*big.Int) map[string]string {
+	d := map[string]string{}
+	keys := map[string]bool{}
+	for k := range pre {
+		keys[k] = true
+	}
+	for k := range post {
+		keys[k] = true
+	}
+	for k := range keys {
+		if !strings.HasPrefix(k, "u") {
+			continue
+		}
+		a, b := pre[k], post[k]
+		if a == nil {
+			a = new(big.Int)
+		}
+		if b == nil {
+			b = new(big.Int)
+		}
+		if a.Cmp(b) != 0 {
+			d[k] = new(big.Int).Sub(b, a).String()
+		}
+	}
+	return d
+}
+
+func sameDeltas(a, b map[string]string) bool {
+	if len(a) != len(b) {
+		return false
+	}
+	for k, v := range a {
+		if b[k] != v {
+			return false
+		}
+	}
+	return true
+}
+
+func addDelta(m map[string]*big.Int, k string, n int) {
+	if m[k] == nil {
+		m[k] = new(big.Int)
+	}
+	m[k].Add(m[k], big.NewInt(int64(n)))
+}
+
+func want(pairs ...interface{}) map[string]string {
+	m := map[string]*big.Int{}
+	for i := 0; i+1 < len(pairs); i += 2 {
+		addDelta(m, pairs[i].(string), pairs[i+1].(int))
+	}
+	out := map[string]string{}
+	for k, v := range m {
+		if v.Sign() != 0 {
+			out[k] = v.String()
+		}
+	}
+	return out
+}
+
+func showDeltas(d map[string]string) string {
+	var ks []string
+	for k := range d {
+		ks = append(ks, k)
+	}
+	sort.Strings(ks)
+	var out []string
+	for _, k := range ks {
+		out = append(out, k+":"+d[k])
+	}
+	return "{" + strings.Join(out, " ") + "}"
+}
+
+func ledgerEq(a, b map[string]*big.Int) bool {
+	if len(a) != len(b) {
+		return false
+	}
+	for k, v := range a {
+		if b[k] == nil || b[k].Cmp(v) != 0 {
+			return false
+		}
+	}
+	return true
 }
 
 // ---- ops ---------------------------------------------------------------------------------------------
@@ -436,244 +660,274 @@ func listStr(as []int) string {
 	return strings.Join(p, ",")
 }
 
+// frame monitor of the index operations: no balance, no supply moves
+func (r *run) idxFrame(kind string) func(string, map[string]*big.Int, map[string]*big.Int, string, string) {
+	return func(res string, pre, post map[string]*big.Int, preIdx, postIdx string) {
+		if !ledgerEq(pre, post) {
+			r.out.Violate("frame: " + kind + " changed a balance or a supply")
+		}
+		if res != "ok" && preIdx != postIdx {
+			r.out.Violate("frame: failed " + kind + " changed the indexes")
+		}
+	}
+}
+
 func (r *run) regcoin(d int, aliases []int) {
 	ct := r.nextCt
 	var al []string
 	for _, a := range aliases {
-		al = append(al, aliasName(a))
+		al = append(al, denomName(a))
 	}
 	md := fxtypes.GetCrossChainMetadataManyToOne("Token "+symbol(d), symbol(d), 18, al...)
 	if d == 0 {
 		md = fxtypes.GetFXMetaData()
 	}
-	res := r.idxOpPre(fmt.Sprintf("regcoin %d %d %s", d, ct, listStr(aliases)), func() string {
-		return r.w.Msg(&erc20types.MsgRegisterCoin{Authority: r.gov, Metadata: md})
-	}, func() {
-		if p, ok := r.w.S.App.Erc20Keeper.GetTokenPair(r.ctx(), baseName(d)); ok {
-			if _, known := r.ctOf[p.GetERC20Contract().Hex()]; !known {
-				r.contract[ct] = p.GetERC20Contract()
-				r.ctOf[p.GetERC20Contract().Hex()] = ct
-				r.nextCt++
+	r.op(fmt.Sprintf("regcoin %d %d %s", d, ct, listStr(aliases)), func() error {
+		err := r.msg(&erc20types.MsgRegisterCoin{Authority: r.gov, Metadata: md})
+		if err == nil {
+			if p, ok := r.w.S.App.Erc20Keeper.GetTokenPair(r.ctx(), baseName(d)); ok {
+				if _, known := r.ctOf[p.GetERC20Contract().Hex()]; !known {
+					r.contract[ct] = p.GetERC20Contract()
+					r.ctOf[p.GetERC20Contract().Hex()] = ct
+					r.nextCt++
+				}
+			}
+			if _, ok := r.mdKind[d]; !ok {
+				r.mdKind[d] = "coin"
 			}
 		}
-	})
-	_ = res
+		return err
+	}, opts{check: r.idxFrame("MsgRegisterCoin")})
 }
 
-// idxOpPre runs the op, then `after` (which may learn new contract ids) before the dump is taken
-func (r *run) idxOpPre(line string, f func() string, after func()) string {
-	return r.idxOp(line, func() string {
-		res := f()
-		if res == "ok" {
-			after()
-		}
-		return res
-	})
-}
-
-func (r *run) regerc(d int, aliases []int) {
-	// deploy (once per denom) an ERC-20 owned by an external account, symbol = denom's symbol
-	addr, ok := r.contract[d+1000]
-	if !ok {
+// deploy: an ERC-20 owned by an external account, symbol = the denom's symbol (environment)
+func (r *run) deploy(d int) int {
+	ct := r.nextCt
+	r.op(fmt.Sprintf("deploy %d", ct), func() error {
 		fip := contract.GetFIP20()
 		a, err := r.w.S.App.EvmKeeper.DeployUpgradableContract(r.ctx(), r.owner.Address(), fip.Address, nil, &fip.ABI, "Token "+symbol(d), symbol(d), uint8(18), bx.Erc20ModuleAddr())
 		if err != nil {
 			panic(err)
 		}
-		addr = a
-		r.contract[d+1000] = a
-		r.ctOf[a.Hex()] = r.nextCt
-		r.contract[r.nextCt] = a
+		r.contract[ct] = a
+		r.ctOf[a.Hex()] = ct
+		r.extOf[d] = ct
 		r.nextCt++
+		return nil
+	}, opts{env: true})
+	return ct
+}
+
+func (r *run) regerc(d int, aliases []int) {
+	ct, ok := r.extOf[d]
+	if !ok || (r.dead[ct] && r.rng.Intn(2) == 0) {
+		if r.nextCt >= unknown-1 {
+			return
+		}
+		ct = r.deploy(d)
 	}
-	ct := r.ctOf[addr.Hex()]
 	var al []string
 	for _, a := range aliases {
-		al = append(al, aliasName(a))
+		al = append(al, denomName(a))
 	}
-	r.idxOp(fmt.Sprintf("regerc %d %d %s", d, ct, listStr(aliases)), func() string {
-		return r.w.Msg(&erc20types.MsgRegisterERC20{Authority: r.gov, Erc20Address: addr.Hex(), Aliases: al})
-	})
+	r.op(fmt.Sprintf("regerc %d %d %s", d, ct, listStr(aliases)), func() error {
+		err := r.msg(&erc20types.MsgRegisterERC20{Authority: r.gov, Erc20Address: r.contract[ct].Hex(), Aliases: al})
+		if err == nil {
+			r.mdKind[d] = "erc"
+		}
+		return err
+	}, opts{check: r.idxFrame("MsgRegisterERC20")})
 }
 
 func (r *run) toggle(d int) {
-	r.idxOp(fmt.Sprintf("toggle %d", d), func() string {
-		return r.w.Msg(&erc20types.MsgToggleTokenConversion{Authority: r.gov, Token: baseName(d)})
-	})
+	r.op(fmt.Sprintf("toggle %d", d), func() error {
+		return r.msg(&erc20types.MsgToggleTokenConversion{Authority: r.gov, Token: baseName(d)})
+	}, opts{check: r.idxFrame("MsgToggleTokenConversion")})
 }
 
 func (r *run) upalias(d, a int) {
-	r.idxOp(fmt.Sprintf("upalias %d %d", d, a), func() string {
-		return r.w.Msg(&erc20types.MsgUpdateDenomAlias{Authority: r.gov, Denom: baseName(d), Alias: aliasName(a)})
-	})
+	// what the alias set itself does to the right-hand side of I_external of `d`
+	shift := map[string]*big.Int{}
+	k := r.w.S.App.Erc20Keeper
+	if p, ok := k.GetTokenPair(r.ctx(), baseName(d)); ok {
+		s := r.coinSupply(a)
+		key := p.Denom
+		if p.IsNativeCoin() {
+			// I_family: the alias coins the module already holds enter / leave the sum
+			s = r.coinBal(bx.ModuleAddr(erc20types.ModuleName), a)
+			key = "fam:" + p.Denom
+		}
+		if cur, found := k.GetAliasDenom(r.ctx(), denomName(a)); !found {
+			shift[key] = new(big.Int).Neg(s) // alias added: the coin supply side grows by its supply
+		} else if cur == baseName(d) {
+			shift[key] = s
+		}
+	}
+	r.op(fmt.Sprintf("upalias %d %d", d, a), func() error {
+		return r.msg(&erc20types.MsgUpdateDenomAlias{Authority: r.gov, Denom: baseName(d), Alias: denomName(a)})
+	}, opts{aliasShift: shift, check: r.idxFrame("MsgUpdateDenomAlias")})
 }
 
-func (r *run) fund(k, g, u, n int) {
-	r.ledgerOp(fmt.Sprintf("fund %d %d %d %d", k, g, u, n), func() string {
-		switch {
-		case k == 0:
-			r.w.S.MintToken(r.users[u].AccAddress(), sdk.NewCoin(baseName(g), si(n)))
-		case k <= 3:
-			r.w.S.MintToken(r.users[u].AccAddress(), sdk.NewCoin(aliasName(100+10*g+k-1), si(n)))
-		default:
-			t := r.contract[g+1000]
-			if _, err := r.w.S.App.EvmKeeper.ApplyContract(r.ctx(), r.owner.Address(), t, nil, contract.GetFIP20().ABI, "mint", r.users[u].Address(), big.NewInt(int64(n))); err != nil {
-				panic(err)
-			}
-		}
-		return "ok"
-	})
+func (r *run) enable(b bool) {
+	n := 0
+	if b {
+		n = 1
+	}
+	r.op(fmt.Sprintf("enable %d", n), func() error {
+		p := r.w.S.App.Erc20Keeper.GetParams(r.ctx())
+		p.EnableErc20 = b
+		return r.msg(&erc20types.MsgUpdateParams{Authority: r.gov, Params: p})
+	}, opts{check: r.idxFrame("MsgUpdateParams")})
 }
 
-func (r *run) ccoin(g, u, rc, n int) {
-	r.ledgerOp(fmt.Sprintf("ccoin %d %d %d %d", g, u, rc, n), func() string {
-		return r.w.Msg(&erc20types.MsgConvertCoin{Coin: sdk.NewCoin(baseName(g), si(n)), Receiver: r.users[rc].Address().Hex(), Sender: r.users[u].AccAddress().String()})
-	})
+func (r *run) fundc(d, u, n int) {
+	r.op(fmt.Sprintf("fundc %d %d %d", d, u, n), func() error {
+		r.w.S.MintToken(r.users[u].AccAddress(), sdk.NewCoin(denomName(d), si(n)))
+		return nil
+	}, opts{env: true})
 }
 
-func (r *run) cerc(g, u, rc, n int) {
-	t, ok := r.erc20Of(g)
-	if !ok {
-		t = common.BigToAddress(big.NewInt(int64(7000 + g)))
-	}
-	r.ledgerOp(fmt.Sprintf("cerc %d %d %d %d", g, u, rc, n), func() string {
-		return r.w.Msg(&erc20types.MsgConvertERC20{ContractAddress: t.Hex(), Amount: si(n), Receiver: r.users[rc].AccAddress().String(), Sender: r.users[u].Address().Hex()})
-	})
-}
-
-func (r *run) cden(g, u, rc, n, src, dst int) {
-	name := func(d int) string {
-		if d < 0 {
-			return "B"
-		}
-		return fmt.Sprint(d)
-	}
-	denom := func(d int) string {
-		if d < 0 {
-			return baseName(g)
-		}
-		return aliasName(100 + 10*g + d)
-	}
-	target := "erc20"
-	if dst >= 0 {
-		target = bx.Chains[dst]
-	}
-	r.ledgerOp(fmt.Sprintf("cden %d %d %d %d %s %s", g, u, rc, n, name(src), name(dst)), func() string {
-		return r.w.Msg(&erc20types.MsgConvertDenom{Sender: r.users[u].AccAddress().String(), Receiver: r.users[rc].AccAddress().String(), Coin: sdk.NewCoin(denom(src), si(n)), Target: target})
-	})
-}
-
-// ---- the mixed-transaction experiment --------------------------------------------------------------------
-
-var (
-	mixerAddr = common.HexToAddress("0x00000000000000000000000000000000000c0801")
-	sinkAddr  = common.HexToAddress("0x00000000000000000000000000000000000c0802")
-)
-
-// mixerCode: runtime bytecode that CALLs `a1` with data1, then `a2` with data2 (both embedded after the code), and
-// reverts if either call fails.
-func mixerCode(a1 common.Address, data1 []byte, a2 common.Address, data2 []byte) []byte {
-	build := func(off1, off2 int) []byte {
-		var c []byte
-		p2 := func(n int) []byte { return []byte{0x61, byte(n >> 8), byte(n)} }
-		call := func(off, ln int, to common.Address) {
-			c = append(c, p2(ln)...)  // size
-			c = append(c, p2(off)...) // code offset
-			c = append(c, 0x60, 0x00) // mem dest
-			c = append(c, 0x39)       // CODECOPY
-			c = append(c, 0x60, 0x00, 0x60, 0x00) // retSize retOff
-			c = append(c, p2(ln)...)              // argsSize
-			c = append(c, 0x60, 0x00)             // argsOff
-			c = append(c, 0x60, 0x00)             // value
-			c = append(c, 0x73)                   // PUSH20
-			c = append(c, to.Bytes()...)
-			c = append(c, 0x5a, 0xf1) // GAS CALL
-			c = append(c, 0x15)       // ISZERO
-			c = append(c, 0x61, 0xff, 0xff, 0x57) // PUSH2 fail JUMPI (patched)
-		}
-		call(off1, len(data1), a1)
-		call(off2, len(data2), a2)
-		c = append(c, 0x00) // STOP
-		fail := len(c)
-		c = append(c, 0x5b, 0x60, 0x00, 0x60, 0x00, 0xfd) // JUMPDEST PUSH1 0 PUSH1 0 REVERT
-		for i := 0; i+3 < len(c); i++ {
-			if c[i] == 0x61 && c[i+1] == 0xff && c[i+2] == 0xff && c[i+3] == 0x57 {
-				c[i+1], c[i+2] = byte(fail>>8), byte(fail)
-			}
-		}
-		return c
-	}
-	n := len(build(0, 0))
-	code := build(n, n+len(data1))
-	code = append(code, data1...)
-	code = append(code, data2...)
-	return code
-}
-
-func (r *run) mixedExperiment() {
-	w := r.w
-	ctx := r.ctx()
-	const g = 1
-	tokenContract := common.BigToAddress(big.NewInt(110)).Hex()
-	pair, ok := w.S.App.Erc20Keeper.GetTokenPair(ctx, baseName(g))
-	if !ok {
-		return
-	}
-	token := pair.GetERC20Contract()
-	eth := w.S.App.EthKeeper
-	if err := eth.AddBridgeTokenExecuted(ctx, &crosschaintypes.MsgBridgeTokenClaim{TokenContract: tokenContract, Name: "Token", Symbol: symbol(g), Decimals: 18, ChainName: "eth"}); err != nil {
-		r.out.Stats.Extra["mixed:setup"] = err.Error()
-		return
-	}
-	eth.SetLastObservedBlockHeight(ctx, 1000, uint64(ctx.BlockHeight()))
-	// 100 tokens arrive over the bridge for user 0, who converts them into ERC-20 held by the mixer contract
-	res := w.Atomic(func(c sdk.Context) error {
-		return eth.SendToFxExecuted(c, &crosschaintypes.MsgSendToFxClaim{EventNonce: 1, BlockHeight: 1, TokenContract: tokenContract, Amount: si(100),
-			Sender: helpers.GenExternalAddr("eth"), Receiver: r.users[0].AccAddress().String(), TargetIbc: "", ChainName: "eth"})
-	})
-	if res != "ok" {
-		r.out.Stats.Extra["mixed:deposit"] = res
-		return
-	}
-	res = w.Msg(&erc20types.MsgConvertCoin{Coin: sdk.NewCoin(baseName(g), si(100)), Receiver: mixerAddr.Hex(), Sender: r.users[0].AccAddress().String()})
-	if res != "ok" {
-		r.out.Stats.Extra["mixed:convert"] = res
-		return
-	}
-	d1, _ := contract.GetFIP20().ABI.Pack("transfer", sinkAddr, big.NewInt(10))
-	d2, err := crosschaintypes.GetABI().Pack("bridgeCall", "eth", r.users[0].Address(), []common.Address{token}, []*big.Int{big.NewInt(50)}, common.Address{}, []byte{}, big.NewInt(0), []byte{})
-	if err != nil {
-		panic(err)
-	}
-	for _, variant := range []string{"plain", "mixed"} {
-		var code []byte
-		if variant == "plain" {
-			// control: the same precompile call without touching the token first (balanceOf is a read)
-			d0, _ := contract.GetFIP20().ABI.Pack("balanceOf", sinkAddr)
-			code = mixerCode(token, d0, crosschaintypes.GetAddress(), d2)
-		} else {
-			code = mixerCode(token, d1, crosschaintypes.GetAddress(), d2)
-		}
-		if err := w.S.App.EvmKeeper.CreateContractWithCode(r.ctx(), mixerAddr, code); err != nil {
+func (r *run) funde(ct, u, n int) {
+	r.op(fmt.Sprintf("funde %d %d %d", ct, u, n), func() error {
+		if _, err := r.w.S.App.EvmKeeper.ApplyContract(r.ctx(), r.owner.Address(), r.contract[ct], nil, contract.GetFIP20().ABI, "mint", r.users[u].Address(), big.NewInt(int64(n))); err != nil {
 			panic(err)
 		}
-		before := w.BalanceOf(token, mixerAddr)
-		res = w.CallEVM(r.users[0].Address(), mixerAddr, big.NewInt(0), nil)
-		after := w.BalanceOf(token, mixerAddr)
-		ts := w.TotalSupply(token)
-		r.out.Stats.Extra["mixed:"+variant] = fmt.Sprintf("res=%s mixer %s -> %s, sink %s, totalSupply %s, escrow %s", res, before, after, w.BalanceOf(token, sinkAddr), ts,
-			w.S.App.BankKeeper.GetBalance(r.ctx(), bx.ModuleAddr(erc20types.ModuleName), baseName(g)).Amount)
-		r.out.Count("mixed:" + variant + ":" + strings.SplitN(res, ":", 2)[0])
-		// invariants after the transaction
-		sum := new(big.Int)
-		for _, h := range []common.Address{mixerAddr, sinkAddr, bx.Erc20ModuleAddr(), r.users[0].Address(), r.users[1].Address(), r.users[2].Address()} {
-			sum.Add(sum, w.BalanceOf(token, h))
+		return nil
+	}, opts{env: true})
+}
+
+// kill: the contract's account disappears (what a SELFDESTRUCT leaves behind)
+func (r *run) kill(ct int) {
+	r.op(fmt.Sprintf("kill %d", ct), func() error {
+		if err := r.w.S.App.EvmKeeper.DeleteAccount(r.ctx(), r.contract[ct]); err != nil {
+			panic(err)
 		}
-		escrow := w.S.App.BankKeeper.GetBalance(r.ctx(), bx.ModuleAddr(erc20types.ModuleName), baseName(g)).Amount.BigInt()
-		if sum.Cmp(ts) != 0 || escrow.Cmp(ts) != 0 {
-			r.out.Violate(fmt.Sprintf("mixed transaction (%s): precompile=bridgeCall, token dirtied by caller before call: ERC-20 balances sum %s, totalSupply %s, escrow %s", variant, sum, ts, escrow))
+		r.dead[ct] = true
+		return nil
+	}, opts{env: true})
+}
+
+// pairs registered before the op, for the convert_exact monitor
+type pr struct {
+	d, ct int
+}
+
+func (r *run) pairList() []pr {
+	var l []pr
+	for _, p := range r.w.S.App.Erc20Keeper.GetAllTokenPairs(r.ctx()) {
+		l = append(l, pr{denomID(p.Denom), r.ctID(p.GetERC20Contract())})
+	}
+	return l
+}
+
+// convert_exact, coin -> ERC-20: the sender loses exactly n of the pair's coin, the receiver gains exactly n of the
+// pair's ERC-20, no other user balance in any denomination or contract moves
+// disabledFor tells whether conversions of the token are switched off (module parameter or the pair's flag)
+func (r *run) disabledFor(token string) bool {
+	if !r.w.S.App.Erc20Keeper.GetEnableErc20(r.ctx()) {
+		return true
+	}
+	p, ok := r.w.S.App.Erc20Keeper.GetTokenPair(r.ctx(), token)
+	return ok && !p.Enabled
+}
+
+func (r *run) ccoin(d, u, rc, n int) {
+	pairs := r.pairList()
+	off := r.disabledFor(denomName(d))
+	r.op(fmt.Sprintf("ccoin %d %d %d %d", d, u, rc, n), func() error {
+		return r.msg(&erc20types.MsgConvertCoin{Coin: sdk.NewCoin(denomName(d), si(n)), Receiver: r.users[rc].Address().Hex(), Sender: r.users[u].AccAddress().String()})
+	}, opts{check: func(res string, pre, post map[string]*big.Int, preIdx, postIdx string) {
+		got := userDeltas(pre, post)
+		if res == "ok" && off {
+			r.out.Violate("toggle: MsgConvertCoin succeeded although conversion is switched off (module parameter or pair flag)")
+		}
+		if res != "ok" || preIdx != postIdx {
+			if len(got) != 0 || (res != "ok" && preIdx != postIdx) {
+				r.out.Violate("convert_exact: MsgConvertCoin that failed (or removed a dead pair) moved balances " + showDeltas(got))
+			}
+			return
+		}
+		for _, p := range pairs {
+			if p.d == d && sameDeltas(got, want(fmt.Sprintf("u%d.d%d", u, p.d), -n, fmt.Sprintf("u%d.c%d", rc, p.ct), n)) {
+				return
+			}
+		}
+		r.out.Violate(fmt.Sprintf("convert_exact: MsgConvertCoin of %d in denomination class %s moved %s, not (sender -n of a registered pair's coin, receiver +n of its ERC-20)", n, denomClass(d), showDeltas(got)))
+	}})
+}
+
+func denomClass(d int) string {
+	if d < 100 {
+		return "base"
+	}
+	return "alias"
+}
+
+func (r *run) cerc(ct, u, rc, n int) {
+	pairs := r.pairList()
+	t := r.contract[ct]
+	off := r.disabledFor(t.Hex())
+	r.op(fmt.Sprintf("cerc %d %d %d %d", ct, u, rc, n), func() error {
+		return r.msg(&erc20types.MsgConvertERC20{ContractAddress: t.Hex(), Amount: si(n), Receiver: r.users[rc].AccAddress().String(), Sender: r.users[u].Address().Hex()})
+	}, opts{check: func(res string, pre, post map[string]*big.Int, preIdx, postIdx string) {
+		got := userDeltas(pre, post)
+		if res == "ok" && off {
+			r.out.Violate("toggle: MsgConvertERC20 succeeded although conversion is switched off (module parameter or pair flag)")
+		}
+		if res != "ok" || preIdx != postIdx {
+			if len(got) != 0 || (res != "ok" && preIdx != postIdx) {
+				r.out.Violate("convert_exact: MsgConvertERC20 that failed (or removed a dead pair) moved balances " + showDeltas(got))
+			}
+			return
+		}
+		for _, p := range pairs {
+			if p.ct == ct && sameDeltas(got, want(fmt.Sprintf("u%d.c%d", u, p.ct), -n, fmt.Sprintf("u%d.d%d", rc, p.d), n)) {
+				return
+			}
+		}
+		r.out.Violate(fmt.Sprintf("convert_exact: MsgConvertERC20 of %d moved %s, not (sender -n of the ERC-20, receiver +n of the pair's coin)", n, showDeltas(got)))
+	}})
+}
+
+// cden: MsgConvertDenom of coin denomination d towards target t (-1 = the erc20 module, i.e. the base denomination)
+func (r *run) cden(d, u, rc, n, t int) {
+	tn, target := "E", "erc20"
+	if t >= 0 {
+		tn, target = fmt.Sprint(t), bx.Chains[t]
+	}
+	// the family of d on the real state: base denomination + metadata aliases
+	fam := map[int]bool{}
+	k := r.w.S.App.Erc20Keeper
+	base := denomName(d)
+	if !k.IsDenomRegistered(r.ctx(), base) {
+		base, _ = k.GetAliasDenom(r.ctx(), base)
+	}
+	if md, ok := r.w.S.App.BankKeeper.GetDenomMetaData(r.ctx(), base); ok && len(md.DenomUnits) > 0 {
+		fam[denomID(base)] = true
+		for _, a := range md.DenomUnits[0].Aliases {
+			fam[denomID(a)] = true
 		}
 	}
+	r.op(fmt.Sprintf("cden %d %d %d %d %s", d, u, rc, n, tn), func() error {
+		return r.msg(&erc20types.MsgConvertDenom{Sender: r.users[u].AccAddress().String(), Receiver: r.users[rc].AccAddress().String(), Coin: sdk.NewCoin(denomName(d), si(n)), Target: target})
+	}, opts{check: func(res string, pre, post map[string]*big.Int, preIdx, postIdx string) {
+		got := userDeltas(pre, post)
+		if preIdx != postIdx {
+			r.out.Violate("frame: MsgConvertDenom changed the indexes")
+		}
+		if res != "ok" {
+			if len(got) != 0 {
+				r.out.Violate("convert_exact: failed MsgConvertDenom moved balances " + showDeltas(got))
+			}
+			return
+		}
+		for x := range fam {
+			if x != d && sameDeltas(got, want(fmt.Sprintf("u%d.d%d", u, d), -n, fmt.Sprintf("u%d.d%d", rc, x), n)) {
+				return
+			}
+		}
+		r.out.Violate(fmt.Sprintf("convert_exact: MsgConvertDenom of %d moved %s, not (sender -n of the coin, receiver +n of another denomination of the same token)", n, showDeltas(got)))
+	}})
 }
 
 // ---- driver of the test ----------------------------------------------------------------------------------
@@ -682,20 +936,19 @@ func TestC08(t *testing.T) {
 	seed := hx.Seed()
 	rng := rand.New(rand.NewSource(seed))
 	out := hx.NewOut()
-	defer out.Close("correspondence: ledger (3 users + erc20 module + WFX contract x every representation + supplies) after every conversion message, raw erc20 store indexes + bank metadata after every registration / toggle / alias update; monitors I_sum, I_module, I_external, I_index on real state; mixed-transaction experiment (token.transfer then precompile bridgeCall of the same token in one EVM transaction). non-trivial = distinct (op, outcome)")
-	nSeq := hx.N(8, 40)
-	nOps := 70
+	defer out.Close("correspondence: after every op <outcome kind | balances of 3 users + erc20 module + WFX contract in every denomination and ERC-20 contract + supplies | raw erc20 store indexes + bank metadata aliases + EnableErc20> against Model/C08U.lean; monitors convert_exact, I_sum, I_module, I_external, I_index, frame on real state; mixed transactions (direct token calls + precompile bridgeCall / crossChain on the same token in one EVM transaction) against the StateDB cache model Model/C08Cache.lean. non-trivial = distinct (op, outcome)")
+	nSeq := hx.N(14, 50)
+	nOps := 90
+	nMix := 60
 	if hx.Tier() == "thorough" {
-		nOps = 160
+		nOps = 180
+		nMix = 200
 	}
-	nSeq++ // + one dedicated sequence for the mixed-transaction experiment
-	for seq := 0; seq < nSeq; seq++ {
+	for seq := 0; seq <= nSeq; seq++ {
 		s := hx.NewSuite(t, 1)
 		w := &bx.World{S: s, Height: s.Ctx.BlockHeight()}
-		if seq == nSeq-1 {
-			nOps = 0
-		}
-		r := &run{w: w, out: out, rng: rng, gov: authtypes.NewModuleAddress(govtypes.ModuleName).String(), contract: map[int]common.Address{}, ctOf: map[string]int{}, nextCt: 10, last: map[string]string{}}
+		r := &run{w: w, out: out, rng: rng, gov: authtypes.NewModuleAddress(govtypes.ModuleName).String(), contract: map[int]common.Address{}, ctOf: map[string]int{},
+			nextCt: 10, last: map[string]string{}, extOf: map[int]int{}, mdKind: map[int]string{}, dead: map[int]bool{}, seenIdx: map[string]bool{}}
 		for i := 0; i < 3; i++ {
 			u := helpers.NewSigner(helpers.NewEthPrivKey())
 			s.MintToken(u.AccAddress(), sdk.NewCoin(fxtypes.DefaultDenom, si(1000)))
@@ -707,85 +960,387 @@ func TestC08(t *testing.T) {
 		fxPair, _ := s.App.Erc20Keeper.GetTokenPair(s.Ctx, fxtypes.DefaultDenom)
 		r.contract[0] = fxPair.GetERC20Contract()
 		r.ctOf[fxPair.GetERC20Contract().Hex()] = 0
+		r.mdKind[0] = "coin"
+		ua := common.BigToAddress(big.NewInt(7047))
+		r.contract[unknown] = ua
+		r.ctOf[ua.Hex()] = unknown
 		out.Reset()
 		// fixed prefix: one module-owned token with two aliases, one externally-owned with one alias
 		r.regcoin(1, []int{110, 111})
 		r.regerc(2, []int{120})
-		r.fund(0, 1, 0, 200)
-		r.fund(4, 2, 1, 200)
-		r.fund(1, 1, 2, 50)
+		r.fundc(1, 0, 200)
+		r.funde(r.extOf[2], 1, 200)
+		r.fundc(110, 2, 50)
+		if seq == nSeq {
+			// dedicated last sequence: mixed transactions leave the token's books broken when the defect is present
+			r.mixed(nMix)
+			continue
+		}
 		if seq == 0 {
+			ct1, ct2 := r.ctOfDenom(1), r.extOf[2]
 			r.ccoin(1, 0, 1, 30)
-			r.cerc(2, 1, 1, 40)
-			r.cden(2, 1, 1, 10, -1, 0) // externally-owned base -> alias: breaks I_external (witness of the Lean theorem)
+			r.cerc(ct2, 1, 1, 40)
+			r.cden(2, 1, 1, 10, 0) // externally-owned base -> alias: breaks I_external (witness of the Lean theorem)
+			r.ccoin(110, 2, 2, 5)  // a bridge denomination is not a registered coin
+			r.upalias(2, 110)      // an alias owned by another denomination
+			r.upalias(2, 112)      // a foreign bridge denomination nobody owns: becomes an alias of denomination 2
+			r.fundc(112, 0, 9)
+			r.cden(112, 0, 1, 4, -1)
+			r.cerc(ct1, 1, 2, 30)
+			r.toggle(1)
+			r.ccoin(1, 0, 0, 1)
+			r.toggle(1)
+			r.enable(false)
+			r.ccoin(1, 0, 0, 1)
+			r.regcoin(3, nil)
+			r.enable(true)
+			// the denominations of a module-owned coin: alias -> base (escrows the alias), alias -> alias (paid out of
+			// the escrow), base -> alias, with and without a different receiver
+			r.fundc(111, 2, 20)
+			r.cden(110, 2, 2, 6, -1)
+			r.cden(111, 2, 0, 7, -1)
+			r.cden(110, 2, 1, 3, 1)
+			r.cden(1, 2, 2, 2, 0)
+			// registrations naming an alias that another denomination owns
+			r.regerc(3, []int{110})
+			r.regcoin(4, []int{140, 120})
+			// removing the first of several aliases, adding it back
+			r.upalias(1, 110)
+			r.upalias(1, 110)
+			// a module-deployed contract and an external contract self-destruct: the next conversion removes the pair
+			r.regcoin(5, []int{150, 151})
+			r.fundc(5, 0, 20)
+			r.ccoin(5, 0, 1, 8)
+			ct5 := r.ctOfDenom(5)
+			r.kill(ct5)
+			r.ccoin(5, 0, 0, 1)
+			r.cerc(ct5, 1, 1, 1)
+			r.regcoin(5, []int{150, 151})
+			r.regerc(6, []int{160, 161})
+			ct6 := r.extOf[6]
+			r.funde(ct6, 1, 30)
+			r.cerc(ct6, 1, 1, 10)
+			r.kill(ct6)
+			r.cerc(ct6, 1, 1, 5)
+			r.ccoin(6, 1, 1, 1)
 		}
 		for i := 0; i < nOps; i++ {
 			r.randomOp()
 		}
-		if seq == nSeq-1 {
-			// dedicated last sequence: the experiment leaves the token's books broken when the defect is present
-			r.mixedExperiment()
+	}
+}
+
+func (r *run) ctOfDenom(d int) int {
+	if p, ok := r.w.S.App.Erc20Keeper.GetTokenPair(r.ctx(), baseName(d)); ok {
+		return r.ctID(p.GetERC20Contract())
+	}
+	return unknown
+}
+
+// amount: boundary-biased around `lim` (a balance / an escrow): lim, lim+1, lim-1, 1, small random
+func (r *run) amount(lim *big.Int, cls string) int {
+	l := 0
+	if lim.IsInt64() && lim.Int64() < 1_000_000 {
+		l = int(lim.Int64())
+	}
+	var n int
+	switch k := r.rng.Intn(10); {
+	case k < 2 && l > 0:
+		n = l
+		r.out.Count("amount:" + cls + ":=limit")
+	case k == 2 || l == 0:
+		n = l + 1
+		r.out.Count("amount:" + cls + ":limit+1")
+	case k < 5 && l > 1:
+		n = l - 1
+		r.out.Count("amount:" + cls + ":limit-1")
+	case k < 6:
+		n = 1
+		r.out.Count("amount:" + cls + ":1")
+	default:
+		m := 25
+		if l > 0 && l < m {
+			m = l
+		}
+		n = 1 + r.rng.Intn(m)
+		r.out.Count("amount:" + cls + ":small")
+	}
+	return n
+}
+
+type regState struct {
+	regd    []int         // registered base denominations
+	unreg   []int         // unregistered base denominations (1..7)
+	aliases map[int][]int // registered denom -> metadata aliases
+	idxAl   []int         // aliases in the alias index
+}
+
+func (r *run) regState() regState {
+	k := r.w.S.App.Erc20Keeper
+	st := regState{aliases: map[int][]int{}}
+	for d := 0; d < nG; d++ {
+		if k.IsDenomRegistered(r.ctx(), baseName(d)) {
+			st.regd = append(st.regd, d)
+			if md, ok := r.w.S.App.BankKeeper.GetDenomMetaData(r.ctx(), baseName(d)); ok && len(md.DenomUnits) > 0 {
+				for _, a := range md.DenomUnits[0].Aliases {
+					st.aliases[d] = append(st.aliases[d], denomID(a))
+				}
+			}
+		} else if d > 0 {
+			st.unreg = append(st.unreg, d)
 		}
 	}
+	for _, a := range coinIDs {
+		if a >= 100 && k.IsAliasDenomRegistered(r.ctx(), denomName(a)) {
+			st.idxAl = append(st.idxAl, a)
+		}
+	}
+	return st
+}
+
+func pick(rng *rand.Rand, l []int, def int) int {
+	if len(l) == 0 {
+		return def
+	}
+	return l[rng.Intn(len(l))]
 }
 
 func (r *run) randomOp() {
 	rng := r.rng
 	u, rc := rng.Intn(3), rng.Intn(3)
-	g := []int{0, 1, 1, 1, 2, 2, 2, 3, 4}[rng.Intn(9)]
-	n := 1 + rng.Intn(25)
+	if rng.Intn(3) == 0 {
+		rc = u
+	}
+	st := r.regState()
+	anyAlias := func() int { return 100 + 10*rng.Intn(nG) + rng.Intn(3) }
+	// disabled states are left again quickly, so that most conversions run against an enabled module / pair
+	if !r.w.S.App.Erc20Keeper.GetEnableErc20(r.ctx()) && rng.Intn(3) == 0 {
+		r.enable(true)
+		return
+	}
+	if rng.Intn(8) == 0 {
+		for _, d := range st.regd {
+			if p, ok := r.w.S.App.Erc20Keeper.GetTokenPair(r.ctx(), baseName(d)); ok && !p.Enabled {
+				r.toggle(d)
+				return
+			}
+		}
+	}
+	// a sender that holds the asset, three times out of four
+	holder := func(bal func(u int) *big.Int) int {
+		if rng.Intn(4) != 0 {
+			var hs []int
+			for i := range r.users {
+				if bal(i).Sign() > 0 {
+					hs = append(hs, i)
+				}
+			}
+			if len(hs) > 0 {
+				return hs[rng.Intn(len(hs))]
+			}
+		}
+		return u
+	}
 	switch k := rng.Intn(100); {
-	case k < 22:
-		r.ccoin(g, u, rc, n)
-	case k < 44:
-		r.cerc(g, u, rc, n)
-	case k < 56:
-		dens := []int{-1, 0, 1, 2}
-		gg := 1 + rng.Intn(2)
-		// externally-owned base<->alias conversions are a listed finding; keep them rare but present
-		r.cden(gg, u, rc, 1+rng.Intn(10), dens[rng.Intn(4)], dens[rng.Intn(4)])
-	case k < 62:
-		d := 3 + rng.Intn(4)
+	case k < 20: // MsgConvertCoin
+		var d int
+		cls := ""
+		switch c := rng.Intn(20); {
+		case c < 13:
+			d, cls = pick(rng, st.regd, 1), "registered-base"
+		case c < 17:
+			d, cls = pick(rng, st.idxAl, anyAlias()), "alias-of-registered" // a bridge denomination of a registered coin
+		case c < 18:
+			d, cls = pick(rng, st.unreg, 7), "unregistered-base"
+		default:
+			d, cls = anyAlias(), "any-alias"
+		}
+		r.out.Count("ccoin:denom:" + cls)
+		u = holder(func(i int) *big.Int { return r.coinBal(r.users[i].AccAddress(), d) })
+		r.ccoin(d, u, rc, r.amount(r.coinBal(r.users[u].AccAddress(), d), "ccoin"))
+	case k < 40: // MsgConvertERC20
+		var ct int
+		switch c := rng.Intn(20); {
+		case c < 17:
+			ct = r.ctOfDenom(pick(rng, st.regd, 1))
+			r.out.Count("cerc:contract:registered")
+		case c < 19:
+			ct = pick(rng, r.ctIDs(), unknown)
+			r.out.Count("cerc:contract:any-deployed")
+		default:
+			ct = unknown
+			r.out.Count("cerc:contract:unknown")
+		}
+		u = holder(func(i int) *big.Int { return r.balOf(r.contract[ct], r.users[i].Address()) })
+		r.cerc(ct, u, rc, r.amount(r.balOf(r.contract[ct], r.users[u].Address()), "cerc"))
+	case k < 56: // MsgConvertDenom
+		var d int
+		// denominations of registered tokens that somebody holds
+		var held []int
+		for _, x := range append(append([]int{}, st.regd...), st.idxAl...) {
+			for i := range r.users {
+				if x != 0 && r.coinBal(r.users[i].AccAddress(), x).Sign() > 0 {
+					held = append(held, x)
+					break
+				}
+			}
+		}
+		switch c := rng.Intn(20); {
+		case c < 10 && len(held) > 0:
+			d = held[rng.Intn(len(held))]
+			r.out.Count("cden:denom:held-by-a-user")
+		case c < 8:
+			d = pick(rng, st.regd, 1)
+			r.out.Count("cden:denom:registered-base")
+		case c < 17:
+			d = pick(rng, st.idxAl, anyAlias())
+			r.out.Count("cden:denom:indexed-alias")
+		default:
+			d = anyAlias()
+			r.out.Count("cden:denom:any-alias")
+		}
+		t := rng.Intn(4) - 1
+		if d >= 100 && t == d%10%3 && rng.Intn(5) != 0 {
+			t = -1 // mostly a target other than the chain the coin already is on
+		}
+		u = holder(func(i int) *big.Int { return r.coinBal(r.users[i].AccAddress(), d) })
+		lim := r.coinBal(r.users[u].AccAddress(), d)
+		if rng.Intn(3) == 0 {
+			// what the module holds of the target denomination bounds the conversions it pays out of its escrow
+			fam := d
+			if b, ok := r.w.S.App.Erc20Keeper.GetAliasDenom(r.ctx(), denomName(d)); ok {
+				fam = denomID(b)
+			}
+			tgt := fam
+			for _, a := range st.aliases[fam] {
+				if t >= 0 && a >= 100 && a%10%3 == t {
+					tgt = a
+					break
+				}
+			}
+			if e := r.coinBal(bx.ModuleAddr(erc20types.ModuleName), tgt); e.Sign() > 0 && e.Cmp(lim) < 0 {
+				lim = e
+				r.out.Count("cden:limit=module-escrow-of-target")
+			}
+		}
+		r.cden(d, u, rc, r.amount(lim, "cden"), t)
+	case k < 62: // registrations
+		d := pick(rng, st.unreg, 1+rng.Intn(nG-1))
+		if rng.Intn(8) == 0 {
+			d = pick(rng, st.regd, d) // already registered
+		}
 		var al []int
 		for c := 0; c < 3; c++ {
 			if rng.Intn(2) == 0 {
 				al = append(al, 100+10*d+c)
 			}
 		}
-		if rng.Intn(6) == 0 && r.w.S.App.Erc20Keeper.IsAliasDenomRegistered(r.ctx(), aliasName(110)) {
-			al = append(al, 110) // alias of another denom (only while it is registered: coins of it exist)
+		switch c := rng.Intn(12); {
+		case c == 0:
+			al = append(al, pick(rng, st.idxAl, 110)) // an alias another denomination owns
+		case c == 1:
+			al = append(al, pick(rng, st.regd, 1)) // a registered base denomination as alias
+		case c == 2:
+			al = append(al, anyAlias()) // a foreign bridge denomination
+		case c == 3:
+			al = append(al, d) // itself
 		}
-		if rng.Intn(10) == 0 {
-			al = append(al, 1) // a registered base denom as alias
+		// stateless validation (Metadata.Validate, run by the message router) rejects duplicate aliases
+		seen := map[int]bool{}
+		var uniq []int
+		for _, a := range al {
+			if !seen[a] {
+				seen[a] = true
+				uniq = append(uniq, a)
+			}
 		}
-		if rng.Intn(2) == 0 {
+		al = uniq
+		asCoin := rng.Intn(2) == 0
+		if r.mdKind[d] == "erc" {
+			asCoin = false // modelling restriction: metadata is its alias list only (EqualMetadata compares every field)
+		}
+		if asCoin {
+			if md, ok := r.w.S.App.BankKeeper.GetDenomMetaData(r.ctx(), baseName(d)); ok && len(md.DenomUnits) > 0 && rng.Intn(4) != 0 {
+				// re-registration after a pair was removed: the stored metadata must be presented again
+				al = nil
+				for _, a := range md.DenomUnits[0].Aliases {
+					al = append(al, denomID(a))
+				}
+				r.out.Count("regcoin:existing-metadata")
+			}
 			r.regcoin(d, al)
 		} else {
 			r.regerc(d, al)
 		}
-	case k < 70:
-		r.toggle(rng.Intn(7))
-	case k < 88:
-		d := rng.Intn(7)
-		a := 100 + 10*d + rng.Intn(3)
-		if rng.Intn(5) == 0 {
-			// an alias of another group; kept among denominations 3..6, which the conversion ops only use with their own
-			// aliases (modelling assumption of the ledger slice: an alias converts within its own token group)
-			d = 3 + rng.Intn(4)
-			a = 100 + 10*(3+rng.Intn(4)) + rng.Intn(3)
+	case k < 68:
+		r.toggle(rng.Intn(nG))
+	case k < 84: // MsgUpdateDenomAlias, by class
+		d := pick(rng, st.regd, 1)
+		var a int
+		switch c := rng.Intn(20); {
+		case c < 6:
+			a = 100 + 10*d + rng.Intn(3)
+			r.out.Count("upalias:own-family")
+		case c < 10:
+			a = pick(rng, st.aliases[d], 100+10*d)
+			r.out.Count("upalias:currently-own(remove)")
+		case c < 14:
+			a = pick(rng, st.idxAl, anyAlias())
+			r.out.Count("upalias:indexed(maybe-other-owner)")
+		case c < 17:
+			a = anyAlias()
+			r.out.Count("upalias:any-alias")
+		case c < 18:
+			a = pick(rng, st.regd, 1)
+			r.out.Count("upalias:registered-base-as-alias")
+		case c < 19:
+			d = pick(rng, st.unreg, 7)
+			a = anyAlias()
+			r.out.Count("upalias:unregistered-denom")
+		default:
+			a = pick(rng, st.unreg, 7)
+			r.out.Count("upalias:unregistered-base-as-alias")
 		}
-		if rng.Intn(15) == 0 {
-			a = rng.Intn(7)
+		if owner, ok := r.w.S.App.Erc20Keeper.GetAliasDenom(r.ctx(), denomName(a)); ok && owner != baseName(d) {
+			r.out.Count("upalias:HIT-alias-owned-by-other-denom")
 		}
 		r.upalias(d, a)
-	case k < 94:
-		kinds := []int{0, 1, 2, 3}
-		r.fund(kinds[rng.Intn(4)], 1, u, 1+rng.Intn(50)) // coins are only created for the module-owned token
-	default:
-		if a, ok := r.contract[1000+g]; ok && func() bool { t, reg := r.erc20Of(g); return reg && t == a }() {
-			r.fund(4, g, u, 1+rng.Intn(50))
+	case k < 91: // coins appear (bridge deposits, mint): any tracked denomination
+		d := coinIDs[1+rng.Intn(len(coinIDs)-1)]
+		if rng.Intn(4) != 0 {
+			d = pick(rng, append(append([]int{}, st.idxAl...), st.regd...), d)
+		}
+		if d == 0 {
+			d = 1
+		}
+		r.fundc(d, u, 1+rng.Intn(50))
+	case k < 95: // external tokens are minted by their owner
+		var ext []int
+		for _, ct := range r.extOf {
+			if !r.dead[ct] {
+				ext = append(ext, ct)
+			}
+		}
+		sort.Ints(ext)
+		if len(ext) > 0 {
+			r.funde(ext[rng.Intn(len(ext))], u, 1+rng.Intn(50))
+		}
+	case k < 98:
+		on := r.w.S.App.Erc20Keeper.GetEnableErc20(r.ctx())
+		if on {
+			r.enable(rng.Intn(4) == 0) // mostly a no-op update
 		} else {
-			r.fund(0, 1, u, 1+rng.Intn(50))
+			r.enable(rng.Intn(4) != 0)
+		}
+	default:
+		var alive []int
+		for _, ct := range r.ctIDs() {
+			if ct != 0 && !r.dead[ct] {
+				alive = append(alive, ct)
+			}
+		}
+		if len(alive) > 0 && rng.Intn(2) == 0 {
+			r.kill(alive[rng.Intn(len(alive))])
 		}
 	}
 }
